@@ -26,6 +26,25 @@ def is_opaque(x):
     return type(x).__name__.startswith('Stub_')
 
 
+# ---- prefix sums / counts over sequences.  Natively plain sums; in proofs an uninterpreted prefix
+# function per (sequence, f) that is unfolded one step at the index it is asked for
+# (pyvc.models.q_sum_prefix / q_count_prefix).  `f` / `pred` must be module-level functions.
+
+def sum_prefix(xs, k, f, *extra):
+    """f(xs[0], *extra) + ... + f(xs[k-1], *extra)"""
+    return sum(f(xs[j], *extra) for j in range(k))
+
+
+def count_prefix(xs, k, pred, *extra):
+    """number of j < k with pred(xs[j], *extra)"""
+    return sum(1 for j in range(k) if pred(xs[j], *extra))
+
+
+def nat_of_str(s):
+    """the number denoted by a non-empty string of ASCII digits, else -1 (SMT-LIB str.to_int)"""
+    return int(s) if s != '' and all(c in '0123456789' for c in s) else -1
+
+
 def prefix_fold(f, init, xs, i, *extra):
     """f(...f(f(init, xs[0]), xs[1])..., xs[i-1]): the state after the first i elements of xs
     (f is called as f(state, x, *extra)).
@@ -41,6 +60,11 @@ def prefix_fold(f, init, xs, i, *extra):
 def items_of(it):
     """the (remaining) items of an iterator or sequence, as a list"""
     return list(it)
+
+
+def keys_subset(m1, m2):
+    """every key of the dict m1 is a key of m2"""
+    return all(k in m2 for k in m1)
 
 
 def recursive(fn):
